@@ -67,6 +67,14 @@ ASSUMPTIONS = [
     "out-of-order calls (RuntimeError) and ask_dqd / tell_dqd (NotImplementedError) are compared with the model only",
 ]
 TECHNIQUE = "Lean 4 model + theorems; lock-step correspondence with angelic tie-breaking; history oracle"
+LEVEL_TEXT = ("proof (unbounded: every pool size >= num_active, both reselect modes, arbitrary restart counters, batch "
+              "sizes, score assignments and call histories) about the bandit model, with the UCB1 scores as a "
+              "parameter; the scores themselves (log, sqrt) are computed by the harness as brackets and the "
+              "implementation's selection is checked for admissibility on generated histories")
+TRUSTED_EXTRA = [
+    "the UCB1 score brackets computed by the harness (fractions + math.log / math.sqrt, relative radius 2^-30)",
+    "the spy emitters and the recording archive subclasses of the harness; attribute access to _selection/_success",
+]
 
 SOLDIM = 3
 MDIM = 2
@@ -377,7 +385,7 @@ def run_case(case):
                     return Failure("oracle", f"{where}: {len(act)} emitters active after ask, num_active = {k} "
                                    f"(active {act})")
                 asks = [e for e in new if e["ev"] == "ask"]
-                if len(asks) != len(new) or [e["em"] for e in asks] != act:
+                if len(asks) != len(new) or sorted(e["em"] for e in asks) != act:
                     return Failure("oracle", f"{where}: asked {[(e['ev'], e['em']) for e in new]}, active {act}")
                 outs = {e["em"]: e["out"] for e in asks}
                 want = np.concatenate([outs[i] for i in act], axis=0)
@@ -465,7 +473,7 @@ def run_case(case):
                         return Failure("oracle", f"{where}: rows inserted into the "
                                        f"{'result ' if is_result else ''}archive: {seen}, expected each of "
                                        f"0..{total - 1} exactly once")
-                if [e["em"] for e in tells] != act:
+                if sorted(e["em"] for e in tells) != act:
                     return Failure("oracle", f"{where}: told emitters {[e['em'] for e in tells]}, the active (asked) "
                                    f"ones are {act}")
                 for e in tells:
@@ -554,17 +562,17 @@ def run(ctx):
 def _run(ctx, quick):
     tb = (lambda a, b: a if quick else b)
     ctx.explore("accept-all", lambda r: gen_with("all", r), run_case, ctx.n(120, 6000), nontrivial=nontrivial,
-                time_budget=tb(5, 80))
+                time_budget=tb(4, 60))
     ctx.explore("accept-some", lambda r: gen_with("some", r), run_case, ctx.n(150, 8000), nontrivial=nontrivial,
-                time_budget=tb(6, 100))
+                time_budget=tb(5, 80))
     ctx.explore("nothing-inserted", lambda r: gen_with("nothing", r), run_case, ctx.n(100, 5000),
-                nontrivial=nontrivial, time_budget=tb(5, 70))
+                nontrivial=nontrivial, time_budget=tb(4, 60))
     ctx.explore("nothing-then-some", lambda r: gen_with("nothing-then-some", r), run_case, ctx.n(100, 5000),
-                nontrivial=nontrivial, time_budget=tb(5, 70))
+                nontrivial=nontrivial, time_budget=tb(4, 60))
     ctx.explore("restarts", lambda r: gen_with("some", r, style="restarts"), run_case, ctx.n(100, 5000),
-                nontrivial=nontrivial, time_budget=tb(5, 70))
+                nontrivial=nontrivial, time_budget=tb(4, 60))
     ctx.explore("protocol", lambda r: gen_with("some", r, style="protocol"), run_case, ctx.n(60, 2000),
-                nontrivial=nontrivial, time_budget=tb(3, 40))
+                nontrivial=nontrivial, time_budget=tb(3, 30))
 
 
 def replay(ctx, case):
